@@ -4,6 +4,7 @@ import BpProofs.Json
 import BpProofs.JsonRtMain
 import BpProofs.JsonRtInst
 import BpProofs.JsonText
+import BpProofs.JsonGuard
 /-
   C04 — JSON / dict round trip.
 
@@ -37,32 +38,44 @@ import BpProofs.JsonText
       `m ≈ m'` and `bytes(m') == bytes(m)`.  `≈` is `DEqv` (BpProofs/JsonEqv.lean): same class, same
       `_unknown_fields`, same oneof selection, `_serialized_on_wire` True at every nesting level,
       and slot by slot either related values (identical leaves, item-wise lists / dict values,
-      sub-messages recursively; a singular sub-message only if it is present) or — where `m`
-      holds a default-valued, unselected, non-optional, not-on-the-wire value — PLACEHOLDER,
-      which reads as that default (`deqv_state`; `deqv_dumpVal`: `≈` implies equal bytes, with
-      no typing hypothesis).  The induction is structural over `Val` / `List Val`: singular /
-      proto3-optional / oneof-member sub-messages, repeated messages, `map<string, Msg>`.
+      sub-messages recursively; a singular sub-message only if it is present or differs from
+      its default) or — where `m` holds a default-valued, unselected, non-optional,
+      not-on-the-wire value — PLACEHOLDER, which reads as that default (`deqv_state`;
+      `deqv_dumpVal`: `≈` implies equal bytes for typed values).  The induction is structural
+      over `Val` / `List Val`: singular / proto3-optional / oneof-member sub-messages, repeated
+      messages, `map<string, Msg>`.
       GUARDS, all decidable.  On the SCHEMA: `jsonOk S E cs` (D15 `namesOk`; D17 `fieldJsonOk`:
       string map keys only, no bytes / Timestamp / Duration map values, no BytesValue wrapper, no
       repeated wrappers; `enumOk`) and `groupsOk S` (a field's oneof index is a group of its
-      class).  On the VALUE: `wellTyped S m` (typed slots, no unknown fields, canonical NaN,
-      unselected members unset, an absent plain sub-message equals a fresh one) and `selOk S m`
-      (a oneof selection names a member of that group: the part of the oneof invariant
-      `wellTyped` does not state; without it `to_dict` writes nothing for the group and the
-      rebuilt message has no selection: `selOk_needed_witness`);
+      class).  On the VALUE: `wellTyped' S m` (BpProofs/JsonGuard.lean: typed slots, no unknown
+      fields, canonical NaN, unselected members unset) and `selOk S m` (a oneof selection names a
+      member of that group: the part of the oneof invariant `wellTyped'` does not state; without
+      it `to_dict` writes nothing for the group and the rebuilt message has no selection:
+      `selOk_needed_witness`).  `wellTyped'` is the guard `wellTyped` of BpModel/Json.lean (the one
+      the driver evaluates, `WF WT`) WITHOUT its clause "an absent plain sub-message equals a
+      fresh one": `wellTyped S m = true → wellTyped' S m = true` (`wellTyped_weaken`), and
+      `roundtrip_all_driver_guard` restates the theorem under the old guard;
     * the instance form and the JSON-text path (`roundtrip_all`, the FULL STATEMENT above under the
       guards): `to_dict(m)` is JSON serialisable (`isJson`), `json.loads(json.dumps(d)) == d`
       (`jsonText d = some d`: string keys only, no raw leaf, canonical NaN), and all four
       combinations {class form, instance form on a fresh instance} × {dict, JSON text} return the
       SAME message `m'` with `m ≈ m'` and equal bytes (BpProofs/JsonRtInst.lean, JsonText.lean);
-    * a region the VALUE guard `wellTyped` ("an absent plain sub-message equals a fresh one")
-      excludes, found while proving the above: a plain (not optional, not oneof) sub-message
-      that is NOT `_serialized_on_wire` but differs from `Sub()` — reached by `m.a.b.x = 1`
-      (only `b` is marked) or `m.a.items.append(1)` — was encoded by `bytes(m)` (test
-      `value != default`) but left out by `to_dict` (test `value._serialized_on_wire`): the dict
-      round trip lost it. Replayed on the real code, a genuine defect (D46), repaired there; the
-      model follows the repaired code and `unmarked_submessage_fixed` evaluates the two witnesses.
-      (The theorems above still carry the value guard: dropping it is future work.)
+    * the region the dropped clause used to exclude, found while proving the above: a plain (not
+      optional, not oneof) sub-message that is NOT `_serialized_on_wire` but differs from `Sub()`
+      — reached by `m.a.b.x = 1` (only `b` is marked) or `m.a.items.append(1)` — was encoded by
+      `bytes(m)` (test `value != default`) but left out by `to_dict` (test
+      `value._serialized_on_wire`): the dict round trip lost it.  Replayed on the real code, a
+      genuine defect (D46), repaired there (`to_dict` now uses the test `dump` uses); the model
+      follows the repaired code and the theorems now COVER the region: `≈` relates such a
+      sub-message to its rebuilt, marked counterpart (`keptSlot`, BpProofs/JsonEqv.lean), and the
+      bytes agree because a typed sub-message that differs from `Sub()` has a non-empty body
+      (`dumpSlots_nonempty`, BpProofs/JsonNonEmpty.lean; the induction goes through chains of
+      unmarked sub-messages).  `unmarked_submessage_fixed` instantiates `roundtrip_all` on the two
+      former counterexamples and on a two-level chain (`m.a.b.items.append(1)`).  Consequently
+      `deqv_bytes` (`≈` implies equal bytes) now has the hypotheses `jsonOk` (only "map fields are
+      singular" is used) and `wellTyped'`: without typing, an unmarked sub-message could hold
+      non-default content that encodes to nothing (`None` in a plain int field:
+      `deqv_bytes_needs_typing_witness`).
   NOT PROVED: nothing of the full statement inside the guards.  Outside: the instance form on a
   NON-fresh instance (merge semantics) is not stated; `include_default_values=True` is not covered.
 -/
@@ -232,9 +245,9 @@ theorem d17_map_key_witness :
 
 def Sdbl : Schema := one { name := "x", num := 1, ty := .double }
 /-- JSON has one NaN: a NaN payload does not survive (not a betterproto matter; the value
-    guard `wellTyped` asks for the canonical NaN) -/
+    guard `wellTyped'` asks for the canonical NaN) -/
 theorem nan_payload_witness :
-    wellTyped Sdbl (.msg 0 [.f64 0xfff8000000000001] true [] []) = false ∧
+    wellTyped' Sdbl (.msg 0 [.f64 0xfff8000000000001] true [] []) = false ∧
     fromDictC Sdbl [] 0 (toDict Sdbl [] .camel false (.msg 0 [.f64 0xfff8000000000001] true [] []))
       = .ok (.msg 0 [.f64 0x7ff8000000000000] true [] []) :=
   ⟨by decide, by rfl⟩
@@ -258,9 +271,37 @@ theorem deqv_state (S : Schema) (c : Nat) (sl : List Val) (ow : Bool) (unk : Byt
   | atom _ ha => simp [dAtom] at ha
   | msg _ _ sl' _ _ _ hs => exact ⟨sl', rfl, hs⟩
 
-/-- `≈` implies equal bytes (no typing hypothesis needed) -/
-theorem deqv_bytes (S : Schema) (m m' : Val) (h : DEqv S m m') : dumpVal S m' = dumpVal S m :=
-  deqv_dumpVal S m m' h
+/-- `≈` implies equal bytes, for a typed `m` (of the schema guard only "map fields are
+    singular" is used).  Typing is needed since the D46 repair: `≈` now relates an UNMARKED
+    sub-message that differs from `Sub()` to its marked counterpart, and these encode alike only
+    if the body is non-empty, which typing guarantees (`dumpSlots_nonempty`). -/
+theorem deqv_bytes (S : Schema) (E : Enums) (cs : KeyCase) (m m' : Val) (hjson : jsonOk S E cs = true)
+    (hwt : wellTyped' S m = true) (h : DEqv S m m') : dumpVal S m' = dumpVal S m := by
+  refine deqv_dumpVal S (fun c f hf => ?_) m m' hwt h
+  obtain ⟨d, hd, _, hfd⟩ := fieldsOf_mem S c f hf
+  unfold jsonOk at hjson
+  simp only [Bool.and_eq_true, List.all_eq_true] at hjson
+  exact (hjson.1 d hd).1 f hfd
+
+def Styp : Schema := [
+  { fields := [{ name := "a", num := 1, ty := .message, kind := .user 1 }] },
+  { fields := [{ name := "x", num := 1, ty := .int32 }] }]
+/-- why `deqv_bytes` asks for a typed value: an UNMARKED sub-message holding `None` in a plain
+    `int32` slot (ill-typed; no operation of the library produces it) differs from `Sub()`, so `≈`
+    relates it to its marked counterpart, but its body encodes to nothing: `dump` skips the
+    unmarked one (`serialize_empty` False) and emits an empty record for the marked one -/
+theorem deqv_bytes_needs_typing_witness :
+    DEqv Styp (.msg 0 [.msg 1 [.none] false [] []] false [] []) (.msg 0 [.msg 1 [.none] true [] []] true [] []) ∧
+    wellTyped' Styp (.msg 0 [.msg 1 [.none] false [] []] false [] []) = false ∧
+    dumpVal Styp (.msg 0 [.msg 1 [.none] false [] []] false [] []) = .ok [] ∧
+    dumpVal Styp (.msg 0 [.msg 1 [.none] true [] []] true [] []) = .ok [10, 0] := by
+  refine ⟨?_, by decide, by decide, by decide⟩
+  apply DEqv.msg
+  refine SlotsDEqv.same _ _ _ { name := "a", num := 1, ty := .message, kind := .user 1 } _ _ _ _ (by rfl) ?_ (by decide)
+    (SlotsDEqv.nil _ _ _)
+  apply DEqv.msg
+  exact SlotsDEqv.same _ _ _ { name := "x", num := 1, ty := .int32 } _ _ _ _ (by rfl) (DEqv.atom _ rfl) (by rfl)
+    (SlotsDEqv.nil _ _ _)
 
 /-- **C04, class form, nested messages** (message-typed singular / proto3-optional / oneof-member
     / repeated fields and `map<string, Msg>`, to any depth, recursive classes included):
@@ -269,18 +310,18 @@ theorem deqv_bytes (S : Schema) (m m' : Val) (h : DEqv S m m') : dumpVal S m' = 
 theorem roundtrip_nested (S : Schema) (E : Enums) (cs : KeyCase) (c : Nat) (sl : List Val) (ow : Bool) (unk : Bytes)
     (cur : List (Option Nat))
     (hjson : jsonOk S E cs = true) (hgroups : groupsOk S = true)
-    (hwt : wellTyped S (.msg c sl ow unk cur) = true) (hsel : selOk S (.msg c sl ow unk cur) = true) :
+    (hwt : wellTyped' S (.msg c sl ow unk cur) = true) (hsel : selOk S (.msg c sl ow unk cur) = true) :
     ∃ m', fromDictC S E c (toDict S E cs false (.msg c sl ow unk cur)) = .ok m' ∧
       DEqv S (.msg c sl ow unk cur) m' ∧ dumpVal S m' = dumpVal S (.msg c sl ow unk cur) :=
   ⟨_, roundtrip_class S E cs ⟨hjson, hgroups⟩ c sl ow unk cur hwt hsel⟩
 
 /-- **C04, class form, flat messages**: the special case in which no field is message-typed (the
     statement needs no flatness hypothesis: `flatSlots` of `from_dict_flat_partial` is implied by
-    `wellTyped` + `jsonOk` there).  The rebuilt message is explicit: `jrt` (BpProofs/JsonRt.lean). -/
+    `wellTyped'` + `jsonOk` there).  The rebuilt message is explicit: `jrt` (BpProofs/JsonRt.lean). -/
 theorem roundtrip_flat (S : Schema) (E : Enums) (cs : KeyCase) (c : Nat) (sl : List Val) (ow : Bool) (unk : Bytes)
     (cur : List (Option Nat))
     (hjson : jsonOk S E cs = true) (hgroups : groupsOk S = true)
-    (hwt : wellTyped S (.msg c sl ow unk cur) = true) (hsel : selOk S (.msg c sl ow unk cur) = true) :
+    (hwt : wellTyped' S (.msg c sl ow unk cur) = true) (hsel : selOk S (.msg c sl ow unk cur) = true) :
     fromDictC S E c (toDict S E cs false (.msg c sl ow unk cur))
       = .ok (.msg c (jrtSlots S E cs (fieldsOf S c) cur 0 sl) true unk cur) ∧
     DEqv S (.msg c sl ow unk cur) (.msg c (jrtSlots S E cs (fieldsOf S c) cur 0 sl) true unk cur) ∧
@@ -328,10 +369,10 @@ theorem roundtrip_nested_instance_value :
             .dict [.str [107]] [leafN 9], .str [120]] true [] [some 1]) := by rfl
 
 /-- why `selOk` is a guard: a selection that names no member of the group (a state the
-    constructor and `__setattr__` never produce) is `wellTyped`, `to_dict` writes nothing for the
+    constructor and `__setattr__` never produce) is `wellTyped'`, `to_dict` writes nothing for the
     group, and the rebuilt message has no selection: same bytes, different `which_one_of` -/
 theorem selOk_needed_witness :
-    wellTyped S3 (.msg 0 [.ph, .ph, .none, .ph, .ph, .ph] true [] [some 5]) = true ∧
+    wellTyped' S3 (.msg 0 [.ph, .ph, .none, .ph, .ph, .ph] true [] [some 5]) = true ∧
     selOk S3 (.msg 0 [.ph, .ph, .none, .ph, .ph, .ph] true [] [some 5]) = false ∧
     fromDictC S3 [] 0 (toDict S3 [] .camel false (.msg 0 [.ph, .ph, .none, .ph, .ph, .ph] true [] [some 5]))
       = .ok (.msg 0 [.ph, .ph, .none, .ph, .ph, .ph] true [] [Option.none]) :=
@@ -346,7 +387,7 @@ theorem selOk_needed_witness :
 theorem roundtrip_all (S : Schema) (E : Enums) (cs : KeyCase) (c : Nat) (sl : List Val) (ow : Bool) (unk : Bytes)
     (cur : List (Option Nat))
     (hjson : jsonOk S E cs = true) (hgroups : groupsOk S = true)
-    (hwt : wellTyped S (.msg c sl ow unk cur) = true) (hsel : selOk S (.msg c sl ow unk cur) = true) :
+    (hwt : wellTyped' S (.msg c sl ow unk cur) = true) (hsel : selOk S (.msg c sl ow unk cur) = true) :
     isJson (toDict S E cs false (.msg c sl ow unk cur)) = true ∧
     jsonText (toDict S E cs false (.msg c sl ow unk cur)) = some (toDict S E cs false (.msg c sl ow unk cur)) ∧
     ∃ m', fromDictC S E c (toDict S E cs false (.msg c sl ow unk cur)) = .ok m' ∧
@@ -362,6 +403,21 @@ theorem roundtrip_all (S : Schema) (E : Enums) (cs : KeyCase) (c : Nat) (sl : Li
   · rw [t2, Option.map_some, a]
   · rw [t2, Option.map_some, i]
 
+/-- `roundtrip_all` under the value guard the driver evaluates on harness inputs (`wellTyped`,
+    BpModel/Json.lean: `WF WT`), which is stronger than `wellTyped'` -/
+theorem roundtrip_all_driver_guard (S : Schema) (E : Enums) (cs : KeyCase) (c : Nat) (sl : List Val) (ow : Bool)
+    (unk : Bytes) (cur : List (Option Nat))
+    (hjson : jsonOk S E cs = true) (hgroups : groupsOk S = true)
+    (hwt : wellTyped S (.msg c sl ow unk cur) = true) (hsel : selOk S (.msg c sl ow unk cur) = true) :
+    isJson (toDict S E cs false (.msg c sl ow unk cur)) = true ∧
+    jsonText (toDict S E cs false (.msg c sl ow unk cur)) = some (toDict S E cs false (.msg c sl ow unk cur)) ∧
+    ∃ m', fromDictC S E c (toDict S E cs false (.msg c sl ow unk cur)) = .ok m' ∧
+      fromDictI S E (fresh S c) (toDict S E cs false (.msg c sl ow unk cur)) = .ok m' ∧
+      (jsonText (toDict S E cs false (.msg c sl ow unk cur))).map (fromDictC S E c) = some (.ok m') ∧
+      (jsonText (toDict S E cs false (.msg c sl ow unk cur))).map (fromDictI S E (fresh S c)) = some (.ok m') ∧
+      DEqv S (.msg c sl ow unk cur) m' ∧ dumpVal S m' = dumpVal S (.msg c sl ow unk cur) :=
+  roundtrip_all S E cs c sl ow unk cur hjson hgroups (wellTyped_weaken S _ hwt) hsel
+
 /-- `roundtrip_all` on the concrete nested message `m3` (recursive class, oneof, optional
     sub-message set to its default, repeated sub-messages, `map<string, Node>`) -/
 theorem roundtrip_all_instance :
@@ -371,10 +427,10 @@ theorem roundtrip_all_instance :
       (jsonText (toDict S3 [] .camel false m3)).map (fromDictI S3 [] (fresh S3 0)) = some (.ok m') ∧
       DEqv S3 m3 m' ∧ dumpVal S3 m' = dumpVal S3 m3 := by
   obtain ⟨t1, _, m', a, i, _, ji, b, d⟩ :=
-    roundtrip_all S3 [] .camel 0 _ _ _ _ (by decide) (by decide) (show wellTyped S3 m3 = true by decide) (by decide)
+    roundtrip_all S3 [] .camel 0 _ _ _ _ (by decide) (by decide) (show wellTyped' S3 m3 = true by decide) (by decide)
   exact ⟨t1, m', a, i, ji, b, d⟩
 
-/-! ## a region outside the guards: sub-messages that are set but not marked -/
+/-! ## sub-messages that are set but not marked (D46, repaired): inside the guards now -/
 
 def Sdeep : Schema := [
   { fields := [{ name := "a", num := 1, ty := .message, kind := .user 1 }] },
@@ -387,26 +443,62 @@ def mDeep : Val := .msg 0 [.msg 1 [.msg 2 [.int 1] true [] [], .ph] false [] []]
 /-- `m = Outer(); m.a.items.append(1)` -/
 def mAppend : Val := .msg 0 [.msg 1 [.ph, .list [.int 1]] false [] []] false [] []
 
-/-- outside `wellTyped` (a VALUE guard: "an absent plain sub-message equals a fresh one"): before
-    the D46 repair `bytes(m)` encoded such a sub-message (`value != default`) while `to_dict` left it
-    out (`value._serialized_on_wire` is False) and the round trip lost it — found by this proof,
-    replayed on the real code, repaired there (`to_dict` now uses the test `dump` uses). The repaired
-    behaviour, evaluated on the model: the sub-message is written and the bytes survive. -/
+/-- `Outer.a : Mid`, `Mid.b : Inner`, `Inner.items : repeated int32` -/
+def Schain : Schema := [
+  { fields := [{ name := "a", num := 1, ty := .message, kind := .user 1 }] },
+  { fields := [{ name := "b", num := 1, ty := .message, kind := .user 2 }] },
+  { fields := [{ name := "items", num := 1, ty := .int32, repeated := true }] }]
+/-- `m = Outer(); m.a.b.items.append(1)`: neither `a` nor `b` is marked; the only non-default
+    content of `a` is the unmarked `b` -/
+def mChain : Val := .msg 0 [.msg 1 [.msg 2 [.list [.int 1]] false [] []] false [] []] false [] []
+
+/-- the full statement, as the existential the general theorem gives -/
+def RoundTrips (S : Schema) (c : Nat) (m : Val) : Prop :=
+  isJson (toDict S [] .camel false m) = true ∧
+  jsonText (toDict S [] .camel false m) = some (toDict S [] .camel false m) ∧
+  ∃ m', fromDictC S [] c (toDict S [] .camel false m) = .ok m' ∧
+    fromDictI S [] (fresh S c) (toDict S [] .camel false m) = .ok m' ∧
+    (jsonText (toDict S [] .camel false m)).map (fromDictC S [] c) = some (.ok m') ∧
+    (jsonText (toDict S [] .camel false m)).map (fromDictI S [] (fresh S c)) = some (.ok m') ∧
+    DEqv S m m' ∧ dumpVal S m' = dumpVal S m
+
+/-- the two former counterexamples of D46 (and a chain of two unmarked sub-messages) are outside
+    the OLD value guard `wellTyped` ("an absent plain sub-message equals a fresh one") and inside
+    the new one: `roundtrip_all` applies — before the repair `bytes(m)` encoded such a sub-message
+    (`value != default`) while `to_dict` left it out (`value._serialized_on_wire` is False) and the
+    round trip lost it.  The bytes are real bytes (`dumpVal` succeeds, non-empty). -/
 theorem unmarked_submessage_fixed :
-    jsonOk Sdeep [] .camel = true ∧ groupsOk Sdeep = true ∧ selOk Sdeep mDeep = true ∧
-    wellTyped Sdeep mDeep = false ∧ wellTyped Sdeep mAppend = false ∧
+    (wellTyped Sdeep mDeep = false ∧ wellTyped Sdeep mAppend = false ∧ wellTyped Schain mChain = false) ∧
+    RoundTrips Sdeep 0 mDeep ∧ RoundTrips Sdeep 0 mAppend ∧ RoundTrips Schain 0 mChain ∧
     dumpVal Sdeep mDeep = .ok [10, 4, 10, 2, 8, 1] ∧
-    (fromDictC Sdeep [] 0 (toDict Sdeep [] .camel false mDeep)).bind (dumpVal Sdeep) = .ok [10, 4, 10, 2, 8, 1] ∧
     dumpVal Sdeep mAppend = .ok [10, 3, 18, 1, 1] ∧
-    (fromDictC Sdeep [] 0 (toDict Sdeep [] .camel false mAppend)).bind (dumpVal Sdeep) = .ok [10, 3, 18, 1, 1] :=
-  ⟨by decide, by decide, by decide, by decide, by decide, by decide, by decide, by decide, by decide⟩
+    dumpVal Schain mChain = .ok [10, 5, 10, 3, 10, 1, 1] :=
+  ⟨⟨by decide, by decide, by decide⟩,
+   roundtrip_all Sdeep [] .camel 0 _ _ _ _ (by decide) (by decide) (show wellTyped' Sdeep mDeep = true by decide) (by decide),
+   roundtrip_all Sdeep [] .camel 0 _ _ _ _ (by decide) (by decide) (show wellTyped' Sdeep mAppend = true by decide) (by decide),
+   roundtrip_all Schain [] .camel 0 _ _ _ _ (by decide) (by decide) (show wellTyped' Schain mChain = true by decide) (by decide),
+   by decide, by decide, by decide⟩
+
+/-- the rebuilt messages, evaluated: every level is marked, the content is there -/
+theorem unmarked_submessage_fixed_values :
+    fromDictC Sdeep [] 0 (toDict Sdeep [] .camel false mDeep)
+      = .ok (.msg 0 [.msg 1 [.msg 2 [.int 1] true [] [], .ph] true [] []] true [] []) ∧
+    fromDictC Sdeep [] 0 (toDict Sdeep [] .camel false mAppend)
+      = .ok (.msg 0 [.msg 1 [.ph, .list [.int 1]] true [] []] true [] []) ∧
+    fromDictC Schain [] 0 (toDict Schain [] .camel false mChain)
+      = .ok (.msg 0 [.msg 1 [.msg 2 [.list [.int 1]] true [] []] true [] []] true [] []) :=
+  ⟨by rfl, by rfl, by rfl⟩
 
 end Bp.C04
 
 #print axioms Bp.C04.roundtrip_all
+#print axioms Bp.C04.roundtrip_all_driver_guard
+#print axioms Bp.C04.unmarked_submessage_fixed_values
+#print axioms Bp.wellTyped_weaken
 #print axioms Bp.C04.roundtrip_all_instance
 #print axioms Bp.C04.unmarked_submessage_fixed
 #print axioms Bp.C04.roundtrip_nested
 #print axioms Bp.C04.roundtrip_flat
 #print axioms Bp.C04.roundtrip_nested_instance
 #print axioms Bp.C04.deqv_bytes
+#print axioms Bp.C04.deqv_bytes_needs_typing_witness
